@@ -156,7 +156,7 @@ def punctured(draw, s):
 @st.composite
 def meshes(draw, kinds=("polyline", "polyline", "surface", "surface", "volume")):
     kind = draw(st.sampled_from(list(kinds)))
-    if draw(st.integers(0, 79)) == 0 and kind != "volume":
+    if draw(st.integers(0, 199)) == 0 and kind != "volume":
         return large_mesh(draw(st.integers(0, 10 ** 6)), "polyline" if kind == "polyline" else "surface")
     if kind == "polyline":
         return draw(polylines())
@@ -176,7 +176,7 @@ def meshes(draw, kinds=("polyline", "polyline", "surface", "surface", "volume"))
 def large_mesh(seed, what):
     """a mesh well above 1000 vertices (any plausible internal size threshold): jittered triangulated / quad grid or lattice polyline"""
     rnd = random.Random(seed)
-    nu, nv = rnd.randint(33, 38), rnd.randint(33, 38)
+    nu, nv = rnd.randint(32, 35), rnd.randint(32, 35)
     idx = lambda i, j: i * nv + j
     V = [[i + rnd.uniform(-0.3, 0.3), j + rnd.uniform(-0.3, 0.3), rnd.uniform(0, 0.5)] for i in range(nu) for j in range(nv)]
     if what == "polyline":
@@ -497,8 +497,9 @@ def dist3(p, q):
 
 def build_mesh(case, V=None):
     V = case["V"] if V is None else V
-    if case.get("intcoords") and all(float(x).is_integer() and abs(x) < 2 ** 40 for v in V for x in v):
-        # integer-typed coordinates (numpy int64 rows), as obtained from integer arrays
+    if case.get("intcoords") and all(float(x).is_integer() and abs(x) < 2 ** 24 for v in V for x in v):
+        # integer-typed coordinates (numpy int64 rows), as obtained from integer arrays; magnitudes whose squares stay far
+        # from the int64 range (larger integer coordinates overflow in any integer arithmetic: outside the domain)
         import numpy as np
         import mouette as M
         from mouette.mesh.mesh_data import RawMeshData
@@ -683,6 +684,8 @@ class Env:
         lmax = max([dist3(self.V[a], self.V[b]) for a, b in self.E] + [1.0])
         def fill(container, name, n, typ=float):
             if container.has_attribute(name):
+                if name != "length":
+                    return                   # an attribute of that name exists already (possibly the library's own): leave it
                 a = container.get_attribute(name)
             else:
                 a = container.create_attribute(name, typ, dense=rnd.random() < 0.5)
